@@ -105,7 +105,7 @@ def to_real(v):
         return {to_real(k): to_real(x) for k, x in v["items"]}
     if t == "seq":
         items = [to_real(x) for x in v["items"]]
-        return tuple(items) if v["kind"] == "tuple" else items
+        return {"tuple": tuple, "set": set, "frozenset": frozenset, "list": list}[v["kind"]](items)
     if t == "model":
         if v["home"]["path"] == ["Outer", "Inner"]:
             return m.Outer.Inner(**{f["name"]: to_real(f["v"]) for f in v["fields"]})
